@@ -590,7 +590,29 @@ package gedcom
 //@   assigns H.gedcom.SimpleNode.children, G.gedcom.nodeCache, alloc
 //
 //@ func Decoder.Decode
-//@   props C03
+//@   props C03 C02
+// C02: every accepted line is attached exactly once, at level 0 to the
+// document and otherwise to the most recent node one level up. lastAt[d] is
+// history, not the code's stack: the node of the most recent accepted line at
+// level d. The invariant "open" says the stack agrees with it.
+//@   ghost lastAt map[int]int
+//@   ghost nAtt int = 0
+//@   oncall Document.AddNode do lastAt[0] = data(arg1); nAtt = nAtt + 1
+//@   oncall Document.AddNode check root: indent == 0 && arg0 == document && arg1 == node
+//@   oncall Node.AddNode do lastAt[indent] = data(arg1); nAtt = nAtt + 1
+//@   oncall Node.AddNode check parent: indent >= 1 && data(arg0) == lastAt[indent-1] && arg1 == node
+//@   loop 1 invariant open: forall(d, 0, len(indents), data(indents[d]) == lastAt[d])
+//@   loop 1 iter once: nAtt - old(nAtt) == ite(line != "" && isnil(err), 1, 0)
+// the value of a node is trimmed exactly once, when the next line is accepted
+// (continuation lines can no longer follow) or at the end of the stream
+//@   ghost nTrim int = 0
+//@   ghost lastTrim iface
+//@   oncall Decoder.trimNodeValue do nTrim = nTrim + 1; lastTrim = arg1
+//@   oncall Decoder.trimNodeValue check previous: arg1 == previousNode
+//@   loop 1 iter trims: nTrim - old(nTrim) == nAtt - old(nAtt)
+//@   loop 1 iter advances: implies(nAtt > old(nAtt), previousNode == node && lastTrim == old(previousNode))
+//@   loop 1 invariant trimmed: nTrim == nAtt
+//@   ensures trimmed-all: implies(isnil(result1), nTrim == nAtt + 1)
 //@   safety
 //@   requires dec != nil
 //@   allowpanic "indent is too large" when !dec.AllowInvalidIndents
@@ -1001,3 +1023,12 @@ package gedcom
 //@   loop 3 iter takes: len(winners) - old(len(winners)) == ite(s.similarity >= options.MinimumSimilarity && !old(found[s.a]) && !old(found[s.b]), 1, 0)
 //@   loop 3 iter marks: implies(len(winners) > old(len(winners)), found[s.a] && found[s.b] && winners[len(winners)-1] == s)
 //@   loop 3 iter keeps: implies(len(winners) == old(len(winners)), found[s.a] == old(found[s.a]) && found[s.b] == old(found[s.b]))
+
+// C02: AddNode appends: the children are the old children followed by n.
+//@ func SimpleNode.AddNode
+//@   props C02
+//@   safety
+//@   requires node != nil
+//@   ensures grows: len(node.children) == old(len(node.children)) + 1
+//@   ensures last: node.children[len(node.children)-1] == n
+//@   ensures kept: forall(i, 0, old(len(node.children)), node.children[i] == old(node.children[i]))
